@@ -159,6 +159,40 @@ def wide_alphabet():
     return ops
 
 
+def prefixed_histories(tier):
+    """scale: N forward appends first (N up to 65: thresholds at 8, 16, 32, 64 entries), then every history of length <= 2 (thorough 3)
+    over operations placed around the end of what was appended and at the very start"""
+    ladder = (7, 8, 15, 16, 17, 31, 32, 33, 64, 65)
+    depth = 2 if tier == 'quick' else 3
+    for N in ladder:
+        ops = []
+        T = sum(1 if i % 3 else 2 for i in range(N))         # bytes appended by the prefix
+        for p in (0, 1, T - 1, T, T + 1, T + 4):
+            for c in (b'', b'A', b'BC'):
+                ops.append(('insert', p, c))
+        ops += [('append', b'xy'), ('append', b''), ('extend', [b'', b'Q'])]
+        prefix = tuple(('append', b'A') if i % 3 else ('append', b'BC') for i in range(N))
+        for d in range(1, depth + 1):
+            for hist in itertools.product(ops, repeat=d):
+                yield prefix + hist
+
+
+def _shard_prefixed(shard, nshards, payload):
+    from bisturi.fragments import Fragments
+    st = Stats()
+    for idx, hist in enumerate(prefixed_histories(payload['tier'])):
+        if idx % nshards != shard:
+            continue
+        errs, canon, trans = run_history(hist, Fragments)
+        st.inc('histories')
+        st.inc('transitions', trans)
+        st.add('states', common.digest(canon))
+        for sig, what in errs:
+            st.violate(sig + ' (after many appends)', 'history %s: %s' % (common.show([tuple(o) for o in hist], 400), what),
+                       {'history': [list(o) for o in hist]}, snippet(hist))
+    return st
+
+
 ALPHABETS = {'full': alphabet, 'small': small_alphabet, 'unit': unit_alphabet, 'wide': wide_alphabet}
 
 
@@ -201,6 +235,7 @@ def run(tier):
     # many fragments (depth 6 quick / 7 thorough over 8 operations) and long chunks at far positions (depth 3 / 4 over 22 operations)
     st.merge(common.merge_all(common.run_sharded(_shard, {'depth': 6 if tier == 'quick' else 7, 'mindepth': 4, 'alphabet': 'unit'})))
     st.merge(common.merge_all(common.run_sharded(_shard, {'depth': 3 if tier == 'quick' else 4, 'mindepth': 2, 'alphabet': 'wide'})))
+    st.merge(common.merge_all(common.run_sharded(_shard_prefixed, {'tier': tier})))
     deep = None
     if tier == 'thorough':
         # one level deeper over a reduced alphabet (positions 0..4, chunks of length 0..2): 20 operations, depth 5
@@ -217,8 +252,8 @@ def run(tier):
         'distinct_nontrivial': st.count('states'),
         'rule': 'all operation histories of length 1..%d over %d operations (insert at 0..6 of 4 chunks incl. the empty one, append x4, '
                 'extend x4), plus all histories of length 4..%d over 8 operations (one-byte chunks at 0..5: many fragments) and of length 2..%d over 22 operations '
-                '(chunks of length 1/4/5/8 at 0/4/8/12/16), each executed on a fresh real Fragments; distinct = canonical (sparse map, extent, cursor)' % (
-                    depth, nops, 6 if tier == 'quick' else 7, 3 if tier == 'quick' else 4),
+                '(chunks of length 1/4/5/8 at 0/4/8/12/16), plus every history of length <=%d placed after 7..65 forward appends, each executed on a fresh real Fragments; distinct = canonical (sparse map, extent, cursor)' % (
+                    depth, nops, 6 if tier == 'quick' else 7, 3 if tier == 'quick' else 4, 2 if tier == 'quick' else 3),
         'exhaustive': True,
         'bounds': {'depth': depth, 'operations': nops, 'positions': '0..6', 'chunks': [c.decode() for c in CHUNKS],
                    'extra': 'depth 5 over 20 operations (positions 0..4, chunks of length 0..2)' if deep is not None else None},
